@@ -154,6 +154,7 @@ type c02Op struct {
 	ClientState string `json:"client_state,omitempty"`
 	Challenge   string `json:"challenge,omitempty"`
 	Method      string `json:"method,omitempty"`
+	Fault string `json:"fault,omitempty"` // "nonce-get": the session store fails the first read of an s2s nonce entry during this request (Redis worlds)
 	HTTP bool `json:"http,omitempty"` // the operation goes through the real echo routes (form binding, strict handler, error writers)
 	// introspect / probe / advance
 	Token    string `json:"token,omitempty"`
@@ -187,12 +188,33 @@ type c02World struct {
 	policy   []c02Policy
 	dir      string
 	echo     *echo.Echo
+	redis    bool
+	failNonceGet bool // armed: the next GET of an s2s nonce key fails
 	verifyArgsBad bool
 }
 
 // c02Ager ages every stored session entry by d (time translation); rewrite may adjust time stamps inside a value
 type c02Ager interface {
 	Age(d time.Duration, rewrite func(fullKey string, value []byte) []byte)
+}
+
+// c02FaultHook fails exactly one GET of an s2s nonce entry when armed (a transient read failure of the store)
+type c02FaultHook struct{ w *c02World }
+
+func (h c02FaultHook) DialHook(next redis.DialHook) redis.DialHook { return next }
+func (h c02FaultHook) ProcessPipelineHook(next redis.ProcessPipelineHook) redis.ProcessPipelineHook {
+	return next
+}
+func (h c02FaultHook) ProcessHook(next redis.ProcessHook) redis.ProcessHook {
+	return func(ctx context.Context, cmd redis.Cmder) error {
+		if h.w.failNonceGet && strings.EqualFold(cmd.Name(), "get") && len(cmd.Args()) > 1 && strings.Contains(fmt.Sprint(cmd.Args()[1]), "s2s.nonce") {
+			h.w.failNonceGet = false
+			err := errors.New("verif: injected read failure (i/o timeout)")
+			cmd.SetErr(err)
+			return err
+		}
+		return next(ctx, cmd)
+	}
 }
 
 type c02RedisAger struct{ mr *miniredis.Miniredis }
@@ -222,6 +244,8 @@ func c02NewWorld(t *testing.T, cfg c02Op) *c02World {
 		// when told to (FastForward) - the same time translation
 		mr := miniredis.RunT(t)
 		client := redis.NewClient(&redis.Options{Addr: mr.Addr()})
+		client.AddHook(c02FaultHook{w})
+		w.redis = true
 		sessionDB = storage.NewRedisSessionDatabase(client, "nuts")
 		w.db = c02RedisAger{mr}
 		t.Cleanup(func() { _ = client.Close() })
@@ -262,7 +286,12 @@ func c02NewWorld(t *testing.T, cfg c02Op) *c02World {
 			}
 			// the time window of the JSON-LD proof: the real ProofOptions.ValidAt, called the way
 			// signatureVerifier.jsonldProof calls it (current time, verifier maxSkew) - on the virtual clock
+			// like the real verifier: everything is judged at validAt when the caller passes one, at the current time otherwise
+			// (the time stamps inside presentations are on the virtual clock, so a validAt taken from one is too)
 			at := time.Now().Add(time.Duration(w.shiftMs) * time.Millisecond)
+			if validAt != nil {
+				at = *validAt
+			}
 			if ldProof, err := credential.ParseLDProof(p); err == nil {
 				if !ldProof.ValidAt(at, c02VerifierSkew()) {
 					return nil, errors.New("presentation not valid at time")
@@ -446,6 +475,9 @@ func c02Err(err error) string {
 		return "err:subject-not-found"
 	}
 	s := err.Error()
+	if strings.HasPrefix(s, "unable to store nonce") {
+		return "err:nonce-store-error"
+	}
 	if strings.Contains(s, "InputDescriptorConstraintIdMap contains reserved claim name: ") {
 		return "err:reserved-claim:" + s[strings.LastIndex(s, ": ")+2:]
 	}
@@ -578,6 +610,13 @@ func (w *c02World) httpToken(status int, body []byte) string {
 
 func (w *c02World) execS2S(op *c02Op) string {
 	w.script(op.VPs)
+	if op.Fault == "nonce-get" {
+		if !w.redis {
+			return "fault-needs-redis-world"
+		}
+		w.failNonceGet = true
+		defer func() { w.failNonceGet = false }()
+	}
 	hdr, d := w.dpopHeader(op.DPoP)
 	op.DPoP = d
 	op.Pex = w.pexVerdicts(op.Scope, op.Assertion, op.Submission)
@@ -1420,6 +1459,11 @@ func (g *c02Gen) baselineVP(subject string, d c02DefSpec, holder string, now int
 	case 3:
 		if g.rng.Intn(3) == 0 {
 			created = now + 5300 // beyond the skew: not yet valid
+		}
+	case 4:
+		// post-dated: seconds ... days ahead of the server clock (not valid now, whatever it will be then)
+		if g.rng.Intn(2) == 0 {
+			created = now + []int64{6000, 10000, 60000, 3600000, 86400000, 7 * 86400000}[g.rng.Intn(6)]
 		}
 	}
 	validity := int64(g.rng.Intn(3)) * 2500 // 0, 2.5 or exactly 5 s
@@ -2349,6 +2393,58 @@ func c02Targeted(t *testing.T, out *c02Out, seed int64) {
 		}
 		w.ctrl.Finish()
 	}
+	// (d) post-dated presentations (window entirely ahead of the server clock), JSON-LD and JWT, and their replay after
+	//     the nonce has been forgotten; (e) on the Redis session database: a replay during which the read of the nonce entry fails
+	for _, backend := range []string{"", "redis"} {
+		g := &c02Gen{rng: rng, subjects: []string{"alpha", "alpha2", "beta"}}
+		cfg := g.newConfig(false)
+		cfg.Backend = backend
+		w := c02NewWorld(t, cfg)
+		cfg.T = w.nowNs()
+		out.emit(&cfg, "cfg")
+		one := func() c02Op {
+			for {
+				op := g.s2sRequest(nil, w.nowMs())
+				if len(op.VPs) == 1 {
+					return op
+				}
+			}
+		}
+		if backend == "" {
+			for _, ahead := range []int64{6000, 60000, 3600000, 86400000} {
+				for f := 0; f < 2; f++ {
+					g.forceCreated, g.forceExpires, g.forceFormat = c02Ptr(ahead), c02Ptr(int64(5000)), c02Ptr(f)
+					op := one()
+					op.Defects = []string{fmt.Sprintf("post-dated:%dms", ahead)}
+					out.emit(&op, w.exec(&op))
+					adv := c02Op{Op: "advance", Ms: 16000}
+					out.emit(&adv, w.exec(&adv))
+					again := op
+					again.Defects = []string{"verbatim-replay"}
+					again.DPoP = &c02DPoP{Kind: op.DPoP.Kind, Idx: op.DPoP.Idx}
+					out.emit(&again, w.exec(&again))
+				}
+			}
+		} else {
+			for k := 0; k < 4; k++ {
+				g.forceCreated, g.forceExpires, g.forceFormat = c02Ptr(int64(0)), c02Ptr(int64(5000)), c02Ptr(k%2)
+				op := one()
+				if k == 3 {
+					op.Fault = "nonce-get" // a fault on a FRESH nonce: no token either, and nothing stored
+				}
+				out.emit(&op, w.exec(&op))
+				again := op
+				again.Defects, again.Fault = []string{"verbatim-replay"}, "nonce-get"
+				again.DPoP = &c02DPoP{Kind: op.DPoP.Kind, Idx: op.DPoP.Idx}
+				out.emit(&again, w.exec(&again))
+				third := again
+				third.Fault = ""
+				third.DPoP = &c02DPoP{Kind: op.DPoP.Kind, Idx: op.DPoP.Idx}
+				out.emit(&third, w.exec(&third))
+			}
+		}
+		w.ctrl.Finish()
+	}
 	// (b)
 	g := &c02Gen{rng: rng, subjects: []string{"alpha", "alpha2", "beta"}}
 	cfg := g.newConfig(false)
@@ -2465,6 +2561,7 @@ func TestVerifC02(t *testing.T) {
 				// verbatim replay of a request that was accepted earlier (same presentations, same nonces)
 				op = g.accepted[rng.Intn(len(g.accepted))]
 				op.Defects = []string{"verbatim-replay"}
+				op.Fault, op.HTTP = "", false
 				op.DPoP = &c02DPoP{Kind: op.DPoP.Kind, Idx: op.DPoP.Idx}
 			case r < 80:
 				op = c02Op{Op: "introspect", Extended: rng.Intn(3) == 0}
@@ -2507,6 +2604,10 @@ func TestVerifC02(t *testing.T) {
 			}
 			if (op.Op == "s2s" || op.Op == "code" || op.Op == "introspect" || op.Op == "authresp") && rng.Intn(4) == 0 {
 				op.HTTP = true
+			}
+			if op.Op == "s2s" && w.redis && rng.Intn(3) == 0 {
+				// a transient read failure of the nonce entry: most useful during a replay, harmless otherwise
+				op.Fault, op.HTTP = "nonce-get", false
 			}
 			line := w.exec(&op)
 			if op.Op == "authreq" && pendingSess != nil && strings.HasPrefix(line, "302 ") {
